@@ -1257,6 +1257,16 @@ func binExcludeDir(o corrOpts, sum *res.Summary, r *rng.R, bin string) {
 				sum.Disagree(res.Disagreement{Kind: "panic", Input: fmt.Sprintf("excludedir seed=%d %s exclude-paths=%q (%s)", o.seed, v.name, v.entry, how), Impl: c, Clause: "C10"})
 				continue
 			}
+			if v.name == "flag-over-environment" {
+				// scan-tests=false was given as a flag (it spells out the default; the environment says true)
+				for _, d := range rn.diags {
+					if strings.HasSuffix(d.File, "_test.go") {
+						sum.Disagree(res.Disagreement{Kind: "impl-vs-spec", Input: fmt.Sprintf("excludedir seed=%d -config.scan-tests=false with GOGREEMENT_SCAN_TESTS=true, program k%d", o.seed, i), Impl: d.key(), Model: "no diagnostic in a test file: the flag wins over the environment",
+							Clause: "C14 / C18: no diagnostic in a file excluded by the effective configuration (flag > environment > default)"})
+						break
+					}
+				}
+			}
 			keys := runKeys(rn, func(d binDiag) bool { return !strings.HasSuffix(d.File, "_test.go") })
 			for _, k := range keys {
 				if strings.HasPrefix(k, tok+"/") {
